@@ -1616,7 +1616,7 @@ class AVCConfigurationBox(Mp4Atom):
         for sps in self.sps:
             d.write('H', 'sps_size', len(sps))
             d.write(None, 'sps', sps)
-        d.write('B', 'pps_count', len(self.pps) & 0x1F)
+        d.write('B', 'pps_count', len(self.pps))
         for pps in self.pps:
             d.write('H', 'pps_size', len(pps))
             d.write(None, 'pps', pps)
